@@ -31,7 +31,7 @@ def purity(ctx: Ctx) -> None:
         ctx.require(q in O.sums, f"anchor vanished: {q}")
         sm = O.sums[q]
         bad = [(p, st) for p, sites in sm.mutates.items() for st in sites]
-        if not bad and not sm.globals:
+        if not bad:
             ctx.ok("C20.pure", f"{q} mutates nothing reachable from the component", paths=sm.paths)
         for p, st in bad:
             chain = " -> ".join((q,) + st.chain)
@@ -40,8 +40,7 @@ def purity(ctx: Ctx) -> None:
                      f"`{st.text()}` modifies {st.target}, which is reachable from the component being converted (`{p}` of {q}; call path {chain}): "
                      f"after tagify()/str() the component's own props/children are replaced by their expansions/copies",
                      witness="x = Foo(T()); x.tagify(); x.children[0]  # T tagifiable", line=getattr(st.node, "lineno", None))
-        for st in sm.globals:
-            ctx.fail("C20.pure", f"{JSX}:{st.fn}", st.text(), f"{st.fn} writes module state during conversion")
+
 
 
 def walker_coverage(ctx: Ctx, I: Interp) -> None:
